@@ -367,4 +367,94 @@ theorem markLoop_congr (N : Nat) (g h : Nat → Bool) (e : ∀ i, i < N → g i 
   intro i hi
   rw [e i (List.mem_range.1 hi)]
 
+/-! ### layout freedom of the pieces every filter kernel is made of -/
+
+/-- what the wrappers and native guards establish about an (array, filter) pair before a neighbourhood kernel runs -/
+structure FilterArgs (vA vF : View) (compress : Bool) : Prop where
+  wfA : vA.WF
+  wfF : vF.WF
+  posA : vA.Pos
+  posF : vF.Pos
+  rank : vA.shape.length = vF.shape.length
+  /-- with `compress = false` the raw data pointer of the filter is indexed: the wrapper makes it C-contiguous -/
+  raw : compress = false → vF.strides = cStrides vF.shape
+
+theorem mkFiltV_size {α : Type} (isNZ : α → Bool) (vA : View) (mF : Int → α) (vF : View) (wfF : vF.WF)
+    (m : Mode) (compress : Bool) (d : α) :
+    (mkFiltV isNZ vA mF vF m compress).fi.size =
+      ((List.range (shapeSize vF.shape)).filter fun kk =>
+        (if compress then isNZ else fun _ => true) ((logical mF vF).getD kk d)).length := by
+  unfold mkFiltV
+  simp only [filtVals_eq mF vF wfF]
+  rw [FilterIter.mkFIter_size, FilterIter.footprintCoords_eq, List.length_map]
+  cases compress with
+  | true =>
+    simp only [if_true]
+    rw [fpIdx_eq vF.shape (logical mF vF) (logical_length mF vF) isNZ d]
+  | false =>
+    simp only [Bool.false_eq_true, if_false]
+    rw [fpIdx_all]
+    have : ((List.range (shapeSize vF.shape)).filter fun _ => true) = List.range (shapeSize vF.shape) := by
+      simp
+    rw [this]
+
+theorem size_layout_free {α : Type} (isNZ : α → Bool) (m : Mode) (compress : Bool)
+    (mF₁ mF₂ : Int → α) (vA₁ vA₂ vF₁ vF₂ : View) (wf₁ : vF₁.WF) (wf₂ : vF₂.WF)
+    (hF : toImg mF₁ vF₁ = toImg mF₂ vF₂) (d : α) :
+    (mkFiltV isNZ vA₁ mF₁ vF₁ m compress).fi.size = (mkFiltV isNZ vA₂ mF₂ vF₂ m compress).fi.size := by
+  obtain ⟨hl, hs⟩ := logical_eq_of_toImg _ _ _ _ hF
+  rw [mkFiltV_size isNZ vA₁ mF₁ vF₁ wf₁ m compress d, mkFiltV_size isNZ vA₂ mF₂ vF₂ wf₂ m compress d, hl, hs]
+
+theorem neigh_layout_free {α : Type} (isNZ : α → Bool) (m : Mode) (compress : Bool) (d : α)
+    (mA₁ mA₂ mF₁ mF₂ : Int → α) (vA₁ vA₂ vF₁ vF₂ : View)
+    (h₁ : FilterArgs vA₁ vF₁ compress) (h₂ : FilterArgs vA₂ vF₂ compress)
+    (hA : toImg mA₁ vA₁ = toImg mA₂ vA₂) (hF : toImg mF₁ vF₁ = toImg mF₂ vF₂)
+    (i : Nat) (hi : i < shapeSize vA₁.shape) :
+    (mkFiltV isNZ vA₁ mF₁ vF₁ m compress).neigh d mA₁ (iterPtr vA₁ i) i =
+      (mkFiltV isNZ vA₂ mF₂ vF₂ m compress).neigh d mA₂ (iterPtr vA₂ i) i := by
+  obtain ⟨hl, hs⟩ := logical_eq_of_toImg _ _ _ _ hF
+  obtain ⟨_, hsA⟩ := logical_eq_of_toImg _ _ _ _ hA
+  rw [neigh_logical isNZ mA₁ vA₁ mF₁ vF₁ h₁.wfA h₁.wfF h₁.posA h₁.posF h₁.rank m compress h₁.raw d i hi,
+    neigh_logical isNZ mA₂ vA₂ mF₂ vF₂ h₂.wfA h₂.wfF h₂.posA h₂.posF h₂.rank m compress h₂.raw d i (hsA ▸ hi),
+    hA, hl, hs, hsA]
+
+theorem readIter_logical {α : Type} (mem : Int → α) (v : View) (wf : v.WF) (i : Nat) (hi : i < shapeSize v.shape)
+    (d : α) : readIter mem v i = (toImg mem v).getD (unravelI v.shape i) d := by
+  rw [toImg_getD_unravel mem v i d hi]
+  unfold readIter
+  rw [incrN_eq v wf.len i hi, le_address v wf.len i hi]
+
+theorem readIter_layout_free {α : Type} (m₁ m₂ : Int → α) (v₁ v₂ : View) (wf₁ : v₁.WF) (wf₂ : v₂.WF)
+    (h : toImg m₁ v₁ = toImg m₂ v₂) (i : Nat) (hi : i < shapeSize v₁.shape) (d : α) :
+    readIter m₁ v₁ i = readIter m₂ v₂ i := by
+  obtain ⟨_, hs⟩ := logical_eq_of_toImg _ _ _ _ h
+  rw [readIter_logical m₁ v₁ wf₁ i hi d, readIter_logical m₂ v₂ wf₂ i (hs ▸ hi) d, h, hs]
+
+theorem readAtFlat_logical {α : Type} (mem : Int → α) (v : View) (wf : v.WF) (i : Nat) (hi : i < shapeSize v.shape)
+    (d : α) : readAtFlat mem v i = (toImg mem v).getD (unravelI v.shape i) d := by
+  rw [toImg_getD_unravel mem v i d hi]
+  unfold readAtFlat
+  rw [atFlat_eq_addr v wf i hi]
+
+/-- a kernel that only calls `at_flat(i)`, `i < N`, sees the logical array -/
+theorem flatImg_eq {α : Type} (mem : Int → α) (v : View) (wf : v.WF) : flatImg mem v = toImg mem v := by
+  unfold flatImg toImg logical
+  congr 2
+  apply List.map_congr_left
+  intro k hk
+  unfold readAtFlat
+  rw [atFlat_eq_addr v wf k (List.mem_range.1 hk)]
+
+theorem filtVals_layout_free {α : Type} (m₁ m₂ : Int → α) (v₁ v₂ : View) (wf₁ : v₁.WF) (wf₂ : v₂.WF)
+    (h : toImg m₁ v₁ = toImg m₂ v₂) : filtVals m₁ v₁ = filtVals m₂ v₂ := by
+  rw [filtVals_eq m₁ v₁ wf₁, filtVals_eq m₂ v₂ wf₂, (logical_eq_of_toImg _ _ _ _ h).1]
+
+/-- `position()` of the array iterator at iteration `i` -/
+theorem position_eq (v : View) (wf : v.WF) (i : Nat) (hi : i < shapeSize v.shape) :
+    ((Iter.begin v).incrN i).position.map Int.ofNat = unravelI v.shape i := by
+  rw [incrN_eq v wf.len i hi]
+  simp only [Iter.position]
+  rw [unravelLE_reverse _ _ hi, List.reverse_reverse]
+  rfl
+
 end Mahotas.C08
